@@ -63,7 +63,7 @@ def is_pass_through(call, extra=()):
 
 
 class Prov:
-    def __init__(self, body, extra_pass=(), stop_at=()):
+    def __init__(self, body, extra_pass=(), stop_at=(), interproc=False, _depth=0):
         """extra_pass: more pass-through regexes; stop_at: regexes of calls that are always
         sources even if the table says pass-through."""
         self.body = body
@@ -72,6 +72,8 @@ class Prov:
         self._memo = {}
         self._mut = None
         self._alias = {}
+        self.interproc = interproc
+        self._depth = _depth
 
     # --- aliasing: which locals may a reference-local point into -------------------
     def bases(self, l, _seen=None):
@@ -208,6 +210,17 @@ class Prov:
                     return {("call", c)}
         pt = is_pass_through(c, self.extra)
         if not pt:
+            if self.interproc and self._depth < 3:
+                cb = self.body.facts.body(c.name) if c.name else None
+                if cb is not None and cb.id != self.body.id and cb.nblocks <= 60 and cb.kind in ("Fn", "AssocFn"):
+                    sub = Prov(cb, self.extra, self.stop_at, interproc=True, _depth=self._depth + 1)
+                    out = {("call", c)}
+                    for o in sub.origins(0):
+                        if o[0] == "param" and o[1] - 1 < len(c.args):
+                            out |= self.origins_op(c.args[o[1] - 1])
+                        elif o[0] == "const":
+                            out.add(o)
+                    return out
             return {("call", c)}
         out = set()
         args = c.args[:1] if pt == "poll_body" or c.matches(r"::poll$") else c.args
